@@ -215,7 +215,7 @@ Proof.
   - unfold ast_ok. cbn [c_vers c_random c_sid c_suites c_comp c_has_exts c_exts].
     rewrite <- !len_is_blen.
     split; [exact Hv|]. split; [exact Hr|]. split; [exact Hsid|]. split; [exact Hsne|]. split; [exact Hsu|].
-    split; [exact Hs2|]. split; [exact Hcne|]. split; [lia|].
+    split; [exact Hs2|]. split; [exact Hcne|]. split; [unfold blen, len in *; lia|].
     destruct (nonempty es) eqn:Hne.
     + split; [exact Hpok|]. split; [exact Hbok|]. rewrite <- Hpres, <- Heb, <- len_is_blen. exact Heblen.
     + destruct es; [|discriminate]. specialize (Hnil eq_refl). rewrite Hnil in Hem. inversion Hem; subst outs.
